@@ -64,6 +64,7 @@ type BannerCase struct {
 	Segments    []int            `json:"segments,omitempty"`
 	Explicit    bool             `json:"explicit_write_header"`
 	FavIcon     bool             `json:"favicon"`
+	Interim     int              `json:"interim_status,omitempty"` // a 1xx response precedes the final one (relayed the way httputil.ReverseProxy does)
 }
 
 var (
@@ -90,6 +91,9 @@ func genBanner(t *rapid.T) BannerCase {
 		Disposition: rapid.SampledFrom(dispositions).Draw(t, "disp"),
 		Explicit:    rapid.Bool().Draw(t, "explicit"),
 		FavIcon:     rapid.Bool().Draw(t, "favicon"),
+	}
+	if rapid.IntRange(0, 9).Draw(t, "interim") == 0 {
+		c.Interim = rapid.SampledFrom([]int{103, 102, 100}).Draw(t, "interimStatus")
 	}
 	nct := rapid.SampledFrom([]int{1, 1, 1, 0, 2}).Draw(t, "nct")
 	for i := 0; i < nct; i++ {
@@ -138,6 +142,11 @@ type recorded struct {
 
 func (c *BannerCase) wrapped() http.Handler {
 	return http.HandlerFunc(func(w http.ResponseWriter, r *http.Request) {
+		if c.Interim != 0 {
+			w.Header().Set("Link", "</style.css>; rel=preload; as=style")
+			w.WriteHeader(c.Interim)
+			w.Header().Del("Link")
+		}
 		for _, ct := range c.ContentType {
 			w.Header().Add("Content-Type", ct)
 		}
@@ -258,6 +267,9 @@ func runBanner(c *BannerCase) vh.Outcome {
 	orig := serve(c.wrapped(), c.request())
 	got := serve(h, c.request())
 	may := c.mayAlter()
+	if c.Interim != 0 {
+		o.Classes = append(o.Classes, "interim-response-first")
+	}
 	o.NonTrivial = may || strings.Contains(strings.ToLower(strings.Join(c.ContentType, ",")), "html")
 	identical := got.code == orig.code && bytes.Equal(got.body, orig.body) && headerDiff(orig.hdr, got.hdr, nil) == ""
 	if !may {
